@@ -69,8 +69,13 @@ def projects(tier):
         "zoo.py": "class Base:\n    def __init__(self, name):\n        self.name = name\n    def speak(self, loud=False, times=1):\n        return self.name\n    def run(self):\n        return self.speak(times=2, loud=True)\n\n"
                   "class Dog(Base):\n    def speak(self, loud=False, times=1):\n        return self.name + 'woof'\n\nclass Cat(Base):\n    def speak(self, loud=False, times=1):\n        return self.name + 'meow'\n\n"
                   "def make(kind, name):\n    if kind == 1:\n        return Dog(name)\n    return Cat(name)\n\ndef main():\n    a = make(1, 'a')\n    b = make(2, 'b')\n    print(a.speak(loud=True), b.run(), a.run())\n\nmain()\n"}))
+    # a callee adds several new fields to a nested sub-object of its argument that already has fields on the caller's side
+    out.append(("nested_fields", "python", {
+        "nf.py": "class Inner:\n    def __init__(self):\n        self.base = 1\n\nclass Outer:\n    def __init__(self):\n        self.inner = Inner()\n        self.tag = 0\n\n"
+                 "def fill(o, v):\n    o.inner.alpha = v\n    o.inner.beta = v\n    o.inner.gamma = v\n    o.inner.delta = v\n    o.inner.epsilon = v\n    o.tag = v\n\n"
+                 "def main():\n    o = Outer()\n    o.inner.base = 2\n    o.inner.zeta = 3\n    fill(o, 5)\n    p = Outer()\n    fill(p, 6)\n    return o.inner.alpha\n\nmain()\n"}))
     if tier == "quick":
-        keep = {"ambiguous_imports", "inheritance_override", "py_dataflows", "py_import", "js_dataflows", "java_lang", "mixed_py_js", "generated_py", "php_lang"}
+        keep = {"ambiguous_imports", "inheritance_override", "nested_fields", "py_dataflows", "py_import", "js_dataflows", "java_lang", "mixed_py_js", "generated_py", "php_lang"}
         out = [p for p in out if p[0] in keep]
     return out
 
@@ -78,7 +83,9 @@ def projects(tier):
 def schedules(tier):
     """(tag, hashseed, location, before_other, flags)"""
     sch = [("base", 0, "locA", False, []), ("seed1", 1, "locA", False, []), ("seed2", 2, "locA", False, []),
-           ("locB", 0, "elsewhere/deeper/locB", False, []), ("after_other", 3, "locA", True, []), ("repeat", 0, "locA", False, [])]
+           ("locB", 0, "elsewhere/deeper/locB", False, []), ("after_other", 3, "locA", True, []), ("repeat", 0, "locA", False, []),
+           # the same workspace directory was used before by a project in another language (mocks enabled, --force)
+           ("same_ws_after_js", 0, "locA", "same_ws", [])]
     if tier == "thorough":
         sch += [("seed3", 3, "locA", False, []), ("seed4", 4, "locA", False, []), ("repeat2", 4, "elsewhere/deeper/locB", True, []),
                 ("p2_base", 0, "locA", False, ["--enable-p2"]), ("p2_seed1", 1, "locA", False, ["--enable-p2"]),
@@ -99,7 +106,11 @@ def run(tier, seed):
             d = os.path.join(root, name, tag, loc)
             job = dict(cmd="run", lang=lang, files=files, dir=d, hashseed=hs, flags=flags, export=[], keep_ws=True, timeout=900,
                        post_hook="c14_digest")
-            if before:
+            if before == "same_ws":
+                jobs.append(dict(cmd="run", lang="javascript", files={"o.js": "function zz(a) {\n    return a + 1;\n}\nvar r = zz(2);\n"}, dir=d, hashseed=hs,
+                                 export=[], keep_ws=True, timeout=600))
+                meta.append(None)
+            elif before:
                 # another project is analysed first, in its own process and workspace, on the same machine
                 jobs.append(dict(cmd="run", lang=other[1], files=other[2], dir=os.path.join(root, name, tag, "other"), hashseed=hs,
                                  export=[], timeout=600))
